@@ -57,6 +57,7 @@ type Exec struct {
 	caseHint    *caseHint
 	knownWidth  map[int]int
 	collectLocs *[]Loc
+	absLoops    int // >0 while a sort comparison is evaluated: its loops are cut without invariant (what follows a loop is arbitrary)
 	verTops     map[int][]*Term // heap array version -> allocation marks of states it was part of
 	verTopSeen  map[[2]int]bool
 	loopFrames  []*loopFrameRec
@@ -508,10 +509,10 @@ func (e *Exec) loopSpec(fr *Frame, li *loopInfo) *LoopSpec {
 func (e *Exec) enterLoop(fr *Frame, li *loopInfo, pre *State) *State {
 	c := e.c
 	ls := e.loopSpec(fr, li)
-	if e.pure > 0 {
+	if e.pure > 0 && e.absLoops == 0 {
 		e.fail("loop in pure/spec function %s", fr.fn)
 	}
-	if ls == nil && fr.spec == nil {
+	if ls == nil && fr.spec == nil && e.absLoops == 0 {
 		e.fail("loop in inlined function %s (needs a contract)", fr.fn)
 	}
 	// establish invariants on entry
